@@ -370,9 +370,9 @@ def identical(E, a, b):
             return False
         if isinstance(b, (VI, VB, VS, VR)) and isinstance(a, VC) and a.v is None:
             return False
-        if isinstance(a, (VT, VRef, VExc, VSeq, VBM, VFn, VCls, VBI)) and isinstance(b, VC):
+        if isinstance(a, (VT, VRef, VExc, VSeq, VBM, VFn, VCls, VBI, VRe)) and isinstance(b, VC):
             return False
-        if isinstance(b, (VT, VRef, VExc, VSeq, VBM, VFn, VCls, VBI)) and isinstance(a, VC):
+        if isinstance(b, (VT, VRef, VExc, VSeq, VBM, VFn, VCls, VBI, VRe)) and isinstance(a, VC):
             return False
     if isinstance(a, VT) and isinstance(b, VT):
         return a is b
@@ -1004,8 +1004,8 @@ def getattr_(E, obj, name):
         key = ('attr', obj.name, name)
         if key in E.ghost:
             return E.ghost[key]
-        # attribute of an unknown object: may be missing
-        if not E.spec_mode and E.decide(2, 'getattr %s raises' % name) == 1:
+        # attribute of an unknown object: may be missing (unless a hasattr probe on this path said it is there)
+        if not E.spec_mode and E.ghost.get(('hasattr', obj.name, name)) is not True and E.decide(2, 'getattr %s raises' % name) == 1:
             raise PyRaise(VExc('Exception', [], sym=True, uid=E.fresh('exc')))
         f = z3.Function('attr_' + name, Val, Val)
         o = VO_term(f(obj.t), '%s.%s' % (obj.name, name))
